@@ -74,6 +74,7 @@ func runC05(p *Program, r *Report) {
 	c05emitlock(p, r, env, "C05.emitlock")
 	c05pair(p, r, env, "C05.pair")
 	c05leak(p, r, env, "C05.leak")
+	c05leaf(p, r, env, "C05.leaf")
 	c05msglock(p, r, "C05.msglock")
 	c05closeorder(p, r, "C05.closeorder")
 	c05noreacquire(p, r, env, "C05.noreacquire")
@@ -717,6 +718,62 @@ func c07funnel(p *Program, r *Report, rule string) {
 		}
 	}
 	_ = types.Typ
+}
+
+// c05leaf: leaf mutexes (short critical sections around a map / a flag) are never held across a call
+// into the library: such a call may block on the transport or on another lock, and the other users
+// of the mutex (e.g. the pong handler in the read loop) would block with it.
+var leafMutexes = map[string]bool{"Conn.activePingsMu": true, "Conn.closeReadMu": true, "Conn.closedMu": true, "G:swPoolMu": true}
+var leafAllowedCallees = map[string]bool{"Conn.isClosed": true}
+
+func c05leaf(p *Program, r *Report, env *lockEnv, rule string) {
+	la, cg := env.la, env.cg
+	n := 0
+	for _, fn := range p.Funcs {
+		for _, e := range cg.Edges[fn] {
+			if e.Async || e.Defer {
+				continue
+			}
+			held := la.HeldAt(e.Site)
+			if held == topLocks {
+				continue
+			}
+			for _, l := range la.Names(held) {
+				if !leafMutexes[l] {
+					continue
+				}
+				n++
+				callee := p.FuncName(e.To)
+				r.Check(rule, p.FuncName(fn), "call "+callee+" holding "+l, p.InstrPos(e.Site), leafAllowedCallees[callee],
+					l+" guards a short critical section; no library function (which may block on the transport, a lock or a channel) is called while it is held", p.FuncName(fn)+" calls "+callee+" while holding "+l)
+			}
+		}
+		// blocking channel operations / selects while holding a leaf mutex
+		for _, b := range fn.Blocks {
+			for _, in := range b.Instrs {
+				blocking := false
+				switch x := in.(type) {
+				case *ssa.Select:
+					blocking = x.Blocking
+				case *ssa.Send:
+					blocking = true
+				}
+				if !blocking {
+					continue
+				}
+				held := la.HeldAt(in)
+				if held == topLocks {
+					continue
+				}
+				for _, l := range la.Names(held) {
+					if leafMutexes[l] {
+						r.Check(rule, p.FuncName(fn), "blocking channel operation holding "+l, p.InstrPos(in), false, "no blocking channel operation while a leaf mutex is held", l)
+					}
+				}
+			}
+		}
+	}
+	r.Check(rule, "library", "leaf mutex critical sections", "-", true, "leaf mutexes are not held across library calls", fmt.Sprintf("%d call(s) made under a leaf mutex examined", n))
 }
 
 // c05leak: a function does not return while still holding a lock it acquired itself, except the
